@@ -25,7 +25,7 @@ theorem nonbool_loopFree (env : Env) : ∀ (e : Expr) (c : Ctx) (l : LEnv), WF e
   | .neg e, c, l, hw, _ => by
     simp only [WF] at hw
     simp only [loopFree]
-    exact nonbool_loopFree env e c l hw.1 (by rw [hw.2.1]; decide)
+    exact nonbool_loopFree env e c l hw.1 (by rcases hw.2.1 with h | h <;> rw [h] <;> decide)
   | .bnot e, c, l, hw, _ => by
     simp only [WF] at hw
     simp only [loopFree]
@@ -33,8 +33,8 @@ theorem nonbool_loopFree (env : Env) : ∀ (e : Expr) (c : Ctx) (l : LEnv), WF e
   | .arith op a b, c, l, hw, _ => by
     simp only [WF] at hw
     simp only [loopFree, Bool.and_eq_true]
-    exact ⟨nonbool_loopFree env a c l hw.1 (by rw [hw.2.2.1]; decide),
-           nonbool_loopFree env b c l hw.2.1 (by rw [hw.2.2.2.1]; decide)⟩
+    exact ⟨nonbool_loopFree env a c l hw.1 (by rcases hw.2.2.1 with h | ⟨_, h⟩ <;> rw [h] <;> decide),
+           nonbool_loopFree env b c l hw.2.1 (by rcases hw.2.2.2.1 with h | ⟨_, h⟩ <;> rw [h] <;> decide)⟩
   | .int _, _, _, _, _ | .flt _, _, _, _, _ | .str _, _, _, _, _ | .filesize, _, _, _, _ | .ext _, _, _, _, _
   | .var _, _, _, _, _ | .undefOf _, _, _, _, _ | .count _, _, _, _, _ => rfl
   | .tt, c, _, _, h | .ff, c, _, _, h | .found _, c, _, _, h | .foundAt .., c, _, _, h | .foundIn .., c, _, _, h
@@ -380,7 +380,7 @@ theorem exec_all (env : Env) (henv : EnvOk env) (code : List Instr) :
       exact body_runs ih (wf_typed env _ _ body (hitems n hnm)) (by simp) pcb st mem its hc (meminv_of hP n hg) hl
     · exact hn
   | .int v, c, l, hw => (exec_loopfree env henv code _ c l rfl hw).weaken
-  | .flt f, c, l, hw => absurd hw (by simp [WF])
+  | .flt f, c, l, hw => (exec_loopfree env henv code _ c l rfl hw).weaken
   | .str s, c, l, hw => (exec_loopfree env henv code _ c l rfl hw).weaken
   | .filesize, c, l, hw => (exec_loopfree env henv code _ c l rfl hw).weaken
   | .ext n, c, l, hw => (exec_loopfree env henv code _ c l rfl hw).weaken
@@ -414,12 +414,13 @@ theorem exec_all (env : Env) (henv : EnvOk env) (code : List Instr) :
   | .neg e, c, l, hw => by
     have h := hw
     simp only [WF] at h
-    exact (exec_loopfree env henv code _ c l (nonbool_loopFree env _ c l hw (by simp [tyOf, h.2.1])) hw).weaken
+    exact (exec_loopfree env henv code _ c l
+      (nonbool_loopFree env _ c l hw (by rcases h.2.1 with h' | h' <;> simp [tyOf, h'])) hw).weaken
   | .arith op a b, c, l, hw => by
     have h := hw
     simp only [WF] at h
     exact (exec_loopfree env henv code _ c l
-      (nonbool_loopFree env _ c l hw (by cases op <;> simp [tyOf, h.2.2.1, h.2.2.2.1])) hw).weaken
+      (nonbool_loopFree env _ c l hw (by cases op <;> simp only [tyOf] <;> (try split) <;> decide)) hw).weaken
   | .foundAt s pos, c, l, hw => by
     have h := hw
     simp only [WF] at h
@@ -435,8 +436,8 @@ theorem exec_all (env : Env) (henv : EnvOk env) (code : List Instr) :
   | .cmp op a b, c, l, hw => by
     have h := hw
     simp only [WF] at h
-    have hta : tyOf c a ≠ .bool := by rcases h.2.2 with ⟨h1, _⟩ | ⟨h1, _⟩ <;> rw [h1] <;> decide
-    have htb : tyOf c b ≠ .bool := by rcases h.2.2 with ⟨_, h1⟩ | ⟨_, h1⟩ <;> rw [h1] <;> decide
+    have hta : tyOf c a ≠ .bool := by rcases h.2.2.1 with ⟨h1 | h1, _⟩ | ⟨h1, _⟩ <;> rw [h1] <;> decide
+    have htb : tyOf c b ≠ .bool := by rcases h.2.2.1 with ⟨_, h1 | h1⟩ | ⟨_, h1⟩ <;> rw [h1] <;> decide
     exact (exec_loopfree env henv code _ c l
       (by simp only [loopFree, Bool.and_eq_true]
           exact ⟨nonbool_loopFree env a c l h.1 hta, nonbool_loopFree env b c l h.2.1 htb⟩) hw).weaken
